@@ -160,9 +160,11 @@ def c14(res, tier, seed):
     plans = []
     for si in range(nscans):
         n = r.choice([0, 1, 2, 4, 7, 12, 12, 33])
+        grid = si < 11 * (1 if tier == "quick" else 4)
+        if grid: n = r.choice([6, 12])
         data = bytes(r.choice([0x61, 0x62, 0x00, 0xff, 0x41, 0x20, 0x7a, r.randrange(256)]) for _ in range(n))
         layout = r.choice(["mem", "mem", "mem", "blocks2", "blocks3", "gap"])
-        if n < 3: layout = "mem"
+        if n < 3 or (grid and si % 2 == 0): layout = "mem"
         if layout == "mem":
             blocks = [{"base": 0, "size": n, "doff": 0}]; spec = None
         else:
@@ -194,7 +196,7 @@ def c14(res, tier, seed):
                     continue
             calls.append(gen_call(r, n))
         GRID_FNS = ["mean", "entropy", "deviation", "percentage", "count", "mode", "md5", "crc32", "checksum32", "sha256", "sha1"]
-        if si < len(GRID_FNS) * (1 if tier == "quick" else 4) and n >= 4:
+        if grid:
             # systematic part: one function x a grid of ranges - whole buffer, clipped at the end, starting at / past the end, empty
             fn = GRID_FNS[si % len(GRID_FNS)]
             calls = []
